@@ -31,6 +31,7 @@ func VerifH_C16_WriteFaults() {
 		all = append(all, b)
 		vNoCollisions(all)
 		failedBefore := f.failed
+		lenBefore := len(f.data)
 		perr := sc.Put(ctx, b.c.KeyString(), b.data)
 		if f.failed > failedBefore {
 			vAssert("faulted-put-errors", perr != nil)
@@ -45,9 +46,11 @@ func VerifH_C16_WriteFaults() {
 				vAssert("failed-block-not-reported", herr == nil && (has == dup))
 			}
 			vCover("put-faulted", true)
-			// from here on the known finding applies: the writer position was advanced by the
-			// partial section and is never rewound
-			vRegion("writer-offset-not-rewound", true)
+			// the known finding applies when bytes of the failed section reached the file: the
+			// writer position was advanced by the partial section and is never rewound. (A fault
+			// that wrote nothing leaves the writer where it was; that case must stay correct.)
+			vRegion("writer-offset-not-rewound", len(f.data) > lenBefore)
+			vCover("fault-wrote-nothing", len(f.data) == lenBefore)
 		} else {
 			vAssert("unfaulted-put-ok", perr == nil)
 			okPuts = append(okPuts, b)
